@@ -263,6 +263,38 @@ def run_histories(ctx, model, py_pickle_key=None):
     return findings
 
 
+def run_cross_process(ctx, model, langs):
+    """paired_runs.cross_process_stream: a run after another PROCESS (sharing temp / home / cache directories) and after another run
+    in the same interpreter, each against the same run in a process with fresh directories."""
+    base = common.VERIF / "corpus" / "C07" / "dsdl"
+    findings = pr.cross_process_stream(ctx, common.REPO / "src", base / "vnet", [base / "vdep"], langs, quick=ctx.quick)
+    for f in findings:
+        ctx.case(("cross-process", f["scenario"], f["lang"], f["how"]), nontrivial=True)
+        ctx.count("cross_process_" + f["kind"])
+        if model is not None:
+            ctx.traces += 1
+        if f["kind"] == "worker-error":
+            ctx.broken.append({"kind": "paired-run-worker", "job": f"cross-process {f['scenario']} {f['lang']}", "error": f["error"]})
+        elif f["kind"] == "outcome":
+            ctx.fail({"kind": "outcome-depends-on-earlier-process", "scenario": f["scenario"], "lang": f["lang"], "how": f["how"]},
+                     "a run fails / succeeds depending on a run made before it", {k: f[k] for k in ("scenario", "lang", "how", "first_options", "options", "errors")})
+        elif f["kind"] == "differs":
+            rel = f["files"][0]
+            where, d = where_of_diff(f["lang"], pathlib.Path(f["outs"]["fresh"]) / rel, pathlib.Path(f["outs"][f["how"]]) / rel)
+            rp = {"scenario": f["scenario"], "lang": f["lang"], "how": f["how"], "options_of_the_earlier_run": f["first_options"], "options": f["options"],
+                  "file": rel, "n_differing_files": f["n"], "first_differing_line_fresh_vs_after": d, "sha256": f["sha256"], "input": "corpus:vnet",
+                  "shared": "TMPDIR, HOME, XDG_CACHE_HOME" if f["how"] == "next-process" else "the interpreter (and TMPDIR, HOME)"}
+            if model is not None:
+                ctx.disagree("cross-process", {k: rp[k] for k in ("scenario", "lang", "how", "file", "first_differing_line_fresh_vs_after")},
+                             "equal (nothing outlives a run but the output directory)", "files differ")
+            ctx.fail({"kind": "output-depends-on-earlier-run", "how": f["how"], "scenario": f["scenario"], "lang": f["lang"],
+                      "file_kind": pr.file_kind(f["lang"], rel), "where": where},
+                     f"{f['lang']}: {rel} written after an earlier run with other options ({f['how']}) differs from what the same run writes with fresh "
+                     f"temp / home directories ({where})", rp)
+            ctx.sample({"cross_process": f["scenario"], "lang": f["lang"], "how": f["how"], "differs": rel})
+    return findings
+
+
 def where_of_diff(lang, path_a, path_b):
     """Implementation-side description of where two files differ (part of the key of a finding)."""
     d = pr.first_diff(path_a, path_b)
@@ -518,6 +550,8 @@ def run(ctx: common.Ctx):
             ctx.sample({"differs": rel, "lang": m["lang"], "factor": m["variant"], "where": where, "line": d[0] if d else None})
     ctx.sample({"pairs": len(jobs) - len(bases), "inputs": [i[0] for i in inputs], "random_hash_seed": rnd_seed})
     run_histories(ctx, model, {"lang": "py", "kind": "type", "factor": "hashseed", "where": "pickled-model-literal", "via": "history"})
+    if not ctx.quick:
+        run_cross_process(ctx, model, LANGS)
 
 
 def replay(ctx, path):
